@@ -141,6 +141,10 @@ type Config struct {
 	// LongPattern makes byte values a function of the full offset (period far
 	// above any write size) instead of offset mod 16: for large transfers.
 	LongPattern bool `json:"long_pattern,omitempty"`
+	// RepeatCloses is how many times CloseWrite and Close may each be called
+	// on one stream side (0 means once; repeated calls are legal, idempotent
+	// API usage, and CloseWrite may also follow Close).
+	RepeatCloses int `json:"repeat_closes,omitempty"`
 	// WriteSizesBySide, when non-nil for a side, replaces WriteSizes for it.
 	WriteSizesBySide [2][]int `json:"write_sizes_by_side,omitempty"`
 	// Preamble is executed before the explored suffix (not counted in Depth).
@@ -498,9 +502,11 @@ type sideModel struct {
 	// also assumed when the side's OpenStream failed or was cancelled, because
 	// OpenStream then closes the stream itself).
 	cwCalled, cCalled bool
-	eof               bool
-	deadlineErrSeen   [2]bool // a read / write returned os.ErrDeadlineExceeded
-	rdl, wdl          deadline
+	// cwCount / cCount: how often CloseWrite / Close were called.
+	cwCount, cCount int
+	eof             bool
+	deadlineErrSeen [2]bool // a read / write returned os.ErrDeadlineExceeded
+	rdl, wdl        deadline
 	// sent holds the bytes Write calls reported as written (len(sent) ==
 	// confirmed), in the order the calls were served.
 	sent []byte
@@ -718,10 +724,12 @@ func (w *world) do(ev Event, step int) bool {
 			w.launch(c, step, func(c *call) { c.count, c.err = h.Read(c.data) })
 		case "closeWrite":
 			m.cwCalled = true
+			m.cwCount++
 			w.sawSpecial = true
 			w.launch(&call{kind: "closeWrite", side: s, id: ev.ID}, step, func(c *call) { c.err = h.CloseWrite() })
 		case "close":
 			m.cCalled = true
+			m.cCount++
 			w.sawSpecial = true
 			w.launch(&call{kind: "close", side: s, id: ev.ID}, step, func(c *call) { c.err = h.Close() })
 		case "rdl", "wdl":
@@ -1167,7 +1175,7 @@ func (w *world) key() string {
 		fmt.Fprintf(&b, "s%d:", id)
 		for s := 0; s < 2; s++ {
 			m := &st.side[s]
-			fmt.Fprintf(&b, "[h=%v w=%d r=%d cw=%v c=%v eof=%v rdl=%s%v wdl=%s%v]", m.handle != nil, m.confirmed, m.read, m.cwCalled, m.cCalled, m.eof,
+			fmt.Fprintf(&b, "[h=%v w=%d r=%d cw=%v%d c=%v%d eof=%v rdl=%s%v wdl=%s%v]", m.handle != nil, m.confirmed, m.read, m.cwCalled, m.cwCount, m.cCalled, m.cCount, m.eof,
 				m.rdl.key(now), m.deadlineErrSeen[0], m.wdl.key(now), m.deadlineErrSeen[1])
 		}
 		b.WriteString("\n")
@@ -1266,10 +1274,14 @@ func (w *world) menu() []Event {
 				}
 			}
 			if cfg.Closers[s] {
-				if cfg.has("closeWrite") && !sm.cwCalled && !sm.cCalled {
+				limit := 1
+				if cfg.RepeatCloses > 1 {
+					limit = cfg.RepeatCloses
+				}
+				if cfg.has("closeWrite") && sm.cwCount < limit && (!sm.cCalled || limit > 1) {
 					m = append(m, Event{K: "closeWrite", S: s, ID: id})
 				}
-				if cfg.has("close") && !sm.cCalled {
+				if cfg.has("close") && sm.cCount < limit {
 					m = append(m, Event{K: "close", S: s, ID: id})
 				}
 			}
